@@ -440,7 +440,8 @@ def gen_MbootConsts():
                "receive_sb_file", "execute", "call", "flash_erase_all_unsecure", "configure_memory", "reliable_update",
                "reset", "flash_read_once", "flash_program_once", "efuse_read_once", "efuse_program_once", "flash_read_resource",
                "kp_enroll", "kp_set_intrinsic_key", "kp_write_nonvolatile", "kp_read_nonvolatile", "kp_set_user_key",
-               "kp_write_key_store", "kp_read_key_store"):
+               "kp_write_key_store", "kp_read_key_store", "update_life_cycle", "ele_message", "tp_oem_set_master_share",
+               "tp_hsm_enc_blk", "fuse_program", "fuse_read"):
         f = _fun(mb, fn) if mb is not None else None
         if f is None:
             continue
@@ -483,6 +484,19 @@ def gen_MbootConsts():
                     if ea and ea[0] == "KeyProvOperation":
                         kpops.append((fn, kpd.get(ea[1], 999999)))
     L.append(f"def kpApiOperations : List (String × Nat) := [{', '.join(f'(\"{a}\", {b})' for a, b in kpops)}]")
+    # first argument of the trust-provisioning packets of the modelled methods: TrustProvOperation member (read by value)
+    tpd = dict(enum_members(cmd, "TrustProvOperation"))
+    tpops = []
+    for fn in ("tp_oem_set_master_share", "tp_hsm_enc_blk"):
+        f = _fun(mb, fn) if mb is not None else None
+        for n in ast.walk(f) if f is not None else []:
+            if isinstance(n, ast.Call) and isinstance(n.func, ast.Name) and n.func.id == "CmdPacket" and len(n.args) >= 3:
+                a = n.args[2]
+                a = local_nodes(f).get(a.id, a) if isinstance(a, ast.Name) else a
+                ea = _enum_attr(a)
+                if ea and ea[0] == "TrustProvOperation":
+                    tpops.append((fn, tpd.get(ea[1], 999999)))
+    L.append(f"def tpApiOperations : List (String × Nat) := [{', '.join(f'(\"{a}\", {b})' for a, b in tpops)}]")
     L.append(f"def apiPackets : List (String × Nat × Nat × Nat) := [{', '.join(f'(\"{a}\", {b}, {c}, {e})' for a, b, c, e in pk)}]")
     meta["apiPackets"] = [list(x) for x in pk]
     L += ["", "end SpsdkVerif.Generated.MbootConsts"]
